@@ -62,8 +62,10 @@ FnArgs == IF Thorough
 FnTerms == {Fn(op, args) : op \in {"add", "subtract", "multiply", "divide"}, args \in FnArgs}
       \cup {Fn("join", <<a, b>>), Fn("join", <<a, Atom(","), b>>), Fn("join", <<X, b>>),
             Fn("join", <<Lst(<<a, b>>), Atom("!")>>), Fn("join", <<IntT(1), a>>),
-            Fn("join", <<Lst(<<X, b>>), a>>), Fn("join", <<LstT(<<b>>, X)>>)}
-FnOthers == {X, Y, Z, Anon, a, b, Atom("a b"), Atom("a, b"), Atom("a b!"), Atom("1 a"), Atom("a b a"), Atom("b a?"),
+            Fn("join", <<Lst(<<X, b>>), a>>), Fn("join", <<LstT(<<b>>, X)>>),
+            (* list elements and arguments that are variables bound to punctuation / words *)
+            Fn("join", <<Lst(<<a, X, b>>)>>), Fn("join", <<Lst(<<a, X>>), Y>>), Fn("join", <<a, Y, b, X>>)}
+FnOthers == {X, Y, Z, Anon, a, b, Atom("a, b"), Atom("a? b"), Atom("a,!"), Atom("a a b?"), Atom("a. b."), Atom("a b"), Atom("a, b"), Atom("a b!"), Atom("1 a"), Atom("a b a"), Atom("b a?"),
              IntT(1), IntT(2), IntT(3), IntT(5), IntT(9), IntT(14), IntT(-1), Flt(7, -1), Flt(3, 0),
              Flt(3, -2), IntT(36), IntT(1), Cx("f", <<a>>), Lst(<<a>>), EmptyList}
            \cup FnTerms
@@ -102,18 +104,23 @@ Ground == {a, b, IntT(1), Cx("f", <<a>>), Cx("f", <<b>>), EmptyList, Lst(<<a>>),
 PriorQuick ==
   { P(NoT, NoT, NoT), P(a, NoT, NoT), P(Y, NoT, NoT), P(NoT, X, NoT),
     P(Y, a, NoT), P(NoT, NoT, Lst(<<a>>)), P(NoT, LstT(<<b>>, Z), NoT),
-    P(Cx("f", <<Y>>), NoT, NoT) }
+    P(Cx("f", <<Y>>), NoT, NoT),
+    (* two variables already bound to compound terms which are not identical but unify *)
+    P(Cx("f", <<Z>>), Cx("f", <<b>>), NoT), P(LstT(<<a>>, Z), Lst(<<a, b>>), NoT) }
 PriorMore ==
   { P(Y, Z, NoT), P(Y, Z, a), P(Z, Z, NoT), P(NoT, Z, EmptyList),
     P(Lst(<<Y>>), NoT, NoT), P(LstT(<<a>>, Y), NoT, NoT), P(LstT(<<a>>, Y), Lst(<<b>>), NoT),
     P(NoT, EmptyList, NoT), P(b, a, NoT), P(IntT(1), NoT, NoT), P(Flt(1, 0), NoT, NoT),
     P(Cx("g", <<Y, Z>>), NoT, a), P(NoT, Cx("f", <<Z>>), Cx("f", <<a>>)),
     P(Lst(<<Y, Z>>), a, NoT), P(NoT, NoT, LstT(<<X>>, Y)), P(Z, NoT, LstT(<<a>>, Y)),
-    P(Cx("f", <<Anon>>), NoT, NoT), P(Lst(<<a, Anon>>), NoT, NoT), P(Y, Lst(<<Z>>), b) }
+    P(Cx("f", <<Anon>>), NoT, NoT), P(Lst(<<a, Anon>>), NoT, NoT), P(Y, Lst(<<Z>>), b),
+    P(Z, Cx("g", <<a, Anon>>), Cx("g", <<Anon, b>>)), P(Cx("g", <<Z, a>>), Cx("g", <<b, Z>>), NoT),
+    P(Lst(<<Z, b>>), LstT(<<a>>, Z), NoT) }
 PriorPlain == IF Thorough THEN PriorQuick \cup PriorMore ELSE PriorQuick
 PriorFn    == { P(NoT, NoT, NoT), P(IntT(5), NoT, NoT), P(Y, IntT(3), NoT), P(a, NoT, NoT),
                 P(Lst(<<a, Atom("?")>>), NoT, NoT),
-                P(NoT, IntT(3), NoT), P(Flt(3, -1), NoT, NoT) }
+                P(NoT, IntT(3), NoT), P(Flt(3, -1), NoT, NoT),
+                P(Atom(","), Atom("!"), NoT), P(Atom("?"), a, NoT), P(Y, Atom("."), NoT) }
 PriorLaws  == { P(NoT, NoT, NoT), P(a, NoT, NoT), P(Y, NoT, NoT), P(NoT, X, NoT),
                 P(Cx("f", <<Y>>), NoT, NoT), P(NoT, Lst(<<a>>), NoT), P(LstT(<<a>>, Y), NoT, NoT) }
 
